@@ -14,13 +14,13 @@ BLOB = (400, 2600)
 RULE = ("Hypothesis byte-backed generator: tables of 1-300 commands (weighted 1-12 / 13-40 / 100-300) in 1-4 groups, names over "
         "the full alphabet A-Z a-z 0-9 + # $ @ _ % & built from stems (prefix relations, duplicates, case variants, names with a "
         "character outside the alphabet, a/z/A/Z over-represented), disabled commands and groups, implicit-write commands; "
-        "4-8 lines per case typed as exact / other case / every proper prefix / +1 char / substitution / random name x "
+        "tables of 255-258 commands sharing one prefix (candidate counter), implicit-write commands with equal non-implicit duplicates in both orders; 4-8 lines per case typed as exact / other case / every proper prefix / +1 char / substitution / random name x "
         "suffix none,?,=args,=? ; command capacity from exactly ceil(n/4) upward. A case is non-trivial if some line's typed "
         "name is a prefix of >=2 enabled names, or equals one name while being a proper prefix of another, or the target has "
         "index >=4 in a table of >4 commands, or letter case differs between typed and registered name; distinct by case hash.")
 ASSUMPTIONS = ["all handler scripts return OK at once (invocation counts are C10's)",
                "argument tails are never valid commands (so a missing drain, C01, cannot masquerade as a wrong dispatch)",
-               "an implicit-write command has no case-insensitively equal non-implicit duplicate (DESIGN 4.5)",
+               "an implicit-write command with an equal non-implicit duplicate: WRITE as soon as the typed name equals the implicit-write command, dispatched to the first equal name in registration order (the statement's wording; DESIGN C.6)",
                "'=?' on a command with a write handler but neither test handler nor variables is a WRITE with argument '?' (cat.h:174-178)"]
 TECHNIQUE = "Hypothesis property-based testing: generated tables x typed names x suffixes, differential against an independent table-lookup reference (Resolver/LineSyntax)"
 LEVEL_TEXT = ("Generated-input search with an explicit reference model of name resolution: the callbacks fired per line (command identity "
@@ -75,7 +75,32 @@ def _mk_cmd(d, nm):
     return c
 
 
+def gen_many_candidates(d):
+    """k commands sharing one prefix with k around 256 (the candidate counter must not wrap), typed as that prefix"""
+    k = d.pick([255, 256, 257, 258, 257, 257])
+    pre = d.pick([b"+C", b"+", b"#x", b"Az"])
+    names = [pre + b"%03d" % i for i in range(k)]
+    cmds = [S.mk_cmd(nm, "wrnt") for nm in names]
+    extra = [S.mk_cmd(b"ZED", "wrnt"), S.mk_cmd(b"&Q", "n")]
+    pos = d.below(3)
+    if pos == 0:
+        cmds = cmds + extra
+    elif pos == 1:
+        cmds = extra + cmds
+    else:
+        cmds = cmds[:100] + extra + cmds[100:]
+    inp = bytearray()
+    for _ in range(d.rng(2, 4)):
+        t = d.pick([pre, pre + b"0", pre + b"00", pre + b"1", pre + b"25", G.up_or_low(d, pre), b"ZE", pre + b"000"])
+        inp += b"AT" + t + d.pick([b"", b"?", b"=1", b"=?"]) + b"\n"
+    n = len(cmds)
+    cc = (n + 3) // 4 + d.pick([0, 1, 9])
+    return dict(spec=S.mk_spec(cmds, input=bytes(inp), shared=False, bufsz=cc, ubufsz=8))
+
+
 def gen(d, tier):
+    if d.below(40) == 0:
+        return gen_many_candidates(d)
     stems = [d.pick(G.STEMS + [b"a", b"z", b"Az", b"+zA"]) for _ in range(d.rng(1, 3))]
     ncore = d.rng(1, 5)
     core = [_name(d, stems) for _ in range(ncore)]
@@ -96,7 +121,12 @@ def gen(d, tier):
         nm = _name(d, stems) if d.chance(2, 3) else bytes(d.pick(ALPHA) for _ in range(d.rng(1, 5)))
         c = S.mk_cmd(nm, "wrnt") if nbulk > 40 else _mk_cmd(d, nm)
         cmds.insert(d.below(len(cmds) + 1), c)
-    G.fix_implicit_duplicates(cmds)
+    if d.unlikely(1, 6) and cmds:
+        # an implicit-write command with an equal (other case) non-implicit duplicate, in either registration order
+        src = d.pick(cmds)
+        dup = S.mk_cmd(G.up_or_low(d, src["name"]), "w" if not src["implicit"] else "wrnt", [])
+        dup["implicit"] = 0 if src["implicit"] else 1
+        cmds.insert(d.below(len(cmds) + 1), dup)
     n = len(cmds)
     need = (n + 3) // 4
     cc = max(6, need) if d.chance(1, 3) else max(6, need) + d.pick([0, 1, 2, 7, 20, 40])
